@@ -269,9 +269,9 @@ theorem jobInfo_wf (u : Bool) (chain : List Call) (h : ∀ c ∈ chain, CallWF c
 
 /-- Tasks built by `@task(..)` and any sequence of `.options(..)` / `.export_options(..)` from dicts have dicts. -/
 theorem constructed_calls_wf (opts defExport : Dict Val) (ops : List TaskOp) (reg var : TaskV) (ho : WF opts)
-    (h1 : mkTask opts defExport = .ok reg) (h2 : applyOps reg ops = .ok var) : CallWF ⟨reg, var⟩ := by
+    (h1 : mkTask opts defExport = .ok reg) (h2 : applyOps reg reg ops = .ok var) : CallWF ⟨reg, var⟩ := by
   have hr := mkTask_wf ho h1
-  have hv := applyOps_wf hr.1 hr.2 h2
+  have hv := applyOps_wf hr.1 hr.1 hr.2 h2
   exact ⟨hr.1, hr.2, hv.2⟩
 
 /-! ### 7. task-level API (remarks outside the statement are named `_note`) -/
@@ -279,6 +279,32 @@ theorem constructed_calls_wf (opts defExport : Dict Val) (ops : List TaskOp) (re
 /-- `Task.export_options` keeps the names already exported and adds the new ones. -/
 theorem export_options_accumulates (t t' : TaskV) (upd : Dict Val) (h : t.exportOptions upd = .ok t') :
     (∀ n ∈ t.exports, n ∈ t'.exports) ∧ (∀ n ∈ keys upd, n ∈ t'.exports) := exportOptions_exports h
+
+/-- A Task VALUE that goes through pickle / the cache (`Task.__getstate__`/`__setstate__`) keeps every exported name
+(and gains at most the automatic `prov`), keeps its call-time options up to the idempotent re-validation, and takes its
+definition options from the registered task: calling it afterwards gives the same job options and exports. -/
+theorem roundtrip_preserves_exports (reg t t' : TaskV) (h : t.roundtrip reg = .ok t') :
+    (∀ n ∈ t.exports, n ∈ t'.exports) ∧ (∀ n ∈ t'.exports, n ∈ t.exports ∨ n = "prov") ∧
+    normalize t.over = .ok t'.over ∧ normalize reg.base = .ok t'.base := by
+  have he := roundtrip_exports h
+  unfold TaskV.roundtrip at h
+  obtain ⟨b, o, h1, h2, e1, e2, _⟩ := validate_ok h
+  exact ⟨he.1, he.2, e2 ▸ h2, e1 ▸ h1⟩
+
+/-- For any task value built by `@task` / `.options` / `.export_options` / an earlier round trip (anything that
+came out of `_validate`), the round trip keeps the call-time options EXACTLY (re-validation is idempotent). -/
+theorem roundtrip_preserves_options (reg t0 t t' : TaskV) (hv : validate t0 = .ok t) (h : t.roundtrip reg = .ok t') :
+    t'.over = t.over := by
+  obtain ⟨_, o, _, h2, _, e2, _⟩ := validate_ok hv
+  have hi : normalize t.over = .ok t.over := by rw [e2]; exact normalize_idem h2
+  have := (roundtrip_preserves_exports reg t t' h).2.2.1
+  rw [hi] at this
+  exact (Except.ok.inj this).symm
+
+/-- non-vacuity: `f.export_options(x=1, cache=False)` pickled and restored still exports `x`, `cache`, `cache_scope` -/
+example : (TaskV.roundtrip ⟨[("m", .int 1)], [("x", .int 1), ("cache_scope", scopeV "CSE")], ["x", "cache", "cache_scope"]⟩
+      ⟨[("m", .int 1)], [], []⟩) =
+    .ok ⟨[("m", .int 1)], [("x", .int 1), ("cache_scope", scopeV "CSE")], ["x", "cache", "cache_scope"]⟩ := rfl
 
 /-- Remark (API level): `Task.options` builds the new task without `export_options`, so names exported earlier on the
 same task object are dropped (only the automatic `prov` can remain). -/
